@@ -110,7 +110,7 @@ func c20Run(cs c20Case) c20Obs {
 	select {
 	case r := <-done:
 		obs.Acc, obs.Errs, obs.Panic = r.acc, r.errs, r.pan
-	case <-time.After(10 * time.Second):
+	case <-time.After(5 * time.Second):
 		obs.Hang = true
 	}
 	// goroutines started by the call must be gone (allow the scheduler a moment)
@@ -211,8 +211,16 @@ func c20Oracle(cs c20Case, o c20Obs) string {
 }
 
 // c20Check runs one case: oracle (impl vs property) and trace conformance (impl vs model).
+var c20Hung bool
+
 func c20Check(ctx *Ctx, idx int, cs c20Case) {
+	if c20Hung {
+		return // a hang was already found
+	}
 	o := c20Run(cs)
+	if o.Hang {
+		c20Hung = true
+	}
 	pat := make([]byte, len(cs.Ok))
 	for i, b := range cs.Ok {
 		pat[i] = '0'
